@@ -377,13 +377,11 @@ def check_tag_loop(chk, sname, body, info, P="C13"):
                         benign = True
                         what = "no progress"
                 if v.kind == "call" and callee(v.term).endswith(("cmp::PartialEq::eq", "cmp::PartialEq::ne")) and in_local0 is not None \
-                        and not benign and progress_guard_replace(body, tr, hdr, loop_blocks, in_local0, sw_bb):
+                        and not benign and progress_guard_replace(body, tr, hdr, loop_blocks, in_local0, sw_bb) and \
+                        any(ty_str(x_).startswith("core::option::Option<usize") for x_ in (v.term.get("f") or {}).get("a", [])):
                     # `last.replace(len) == Some(len)`: the exit of the Option-kept progress guard
-                    rep_args = [tr.single_def(tr.value(a_).place.l) for a_ in v.term["args"]
-                                if tr.value(a_).kind == "ref" and not tr.value(a_).place.p]
-                    if any(d_ is not None and d_[2] == "call" and callee(d_[3]).endswith("Option::<T>::replace") for d_ in rep_args):
-                        benign = True
-                        what = "no progress"
+                    benign = True
+                    what = "no progress"
                 if v.kind == "rv" and v.rv["r"] == "discr":
                     src = tr.sources(v.rv["p"])
                     cs = [s_ for s_ in src if s_[0] == "call"]
@@ -555,6 +553,38 @@ def progress_guard_replace(body, tr, hdr, loop_blocks, in_local, before_bb):
             elif d[2] == "assign" and d[3]["rv"]["r"] == "agg" and d[3]["rv"].get("vname") == "Some" and \
                     len(d[3]["rv"]["ops"]) == 1 and is_len(d[3]["rv"]["ops"][0]):
                 some = d
+        if rep is None and some is not None:
+            # variant without `replace`: `if prev == Some(len(input)) { break }  prev = Some(len(input));`
+            for a in v.term["args"]:
+                av = tr.value(a)
+                if av.kind != "ref" or av.place.p:
+                    continue
+                c = av.place.l
+                ds = tr.defs.get(c, [])
+                if len(ds) < 2 or tr.mut_writers().get(c):
+                    continue
+                zero_t = dict((val, tb) for val, tb in t["targets"]).get(0)
+                eq_target = t["else"] if is_eq else zero_t
+                if eq_target is None or (eq_target in loop_blocks and _reaches_within(body, eq_target, hdr, loop_blocks)):
+                    continue
+                ok, n_in = True, 0
+                for d in ds:
+                    if d[0] not in loop_blocks:
+                        continue
+                    n_in += 1
+                    rv_ = d[3]["rv"] if d[2] == "assign" else None
+                    if rv_ is not None and rv_["r"] == "use":
+                        # `prev = move tmp` with `tmp = Some(len(input))`
+                        pv = op_place(rv_["o"])
+                        sd = tr.single_def(pv["l"]) if pv is not None and not pv["p"] else None
+                        rv_ = sd[3]["rv"] if sd is not None and sd[2] == "assign" else None
+                    if rv_ is not None and rv_["r"] == "agg" and rv_.get("vname") == "Some" and \
+                            len(rv_["ops"]) == 1 and is_len(rv_["ops"][0]) and \
+                            body.dominates(bb, d[0]) and body.dominates(d[0], before_bb):
+                        continue
+                    ok = False
+                if ok and n_in >= 1:
+                    return True
         if rep is None or some is None:
             continue
         rt = rep[3]
